@@ -76,6 +76,9 @@ func (s *Sim) observeVote(n *Node, in *inst, v UVote, wire []byte) {
 			s.requireQuorum(n, "cert-vote", v.R.Round, v.R.Period, stepSoft, v.R.Proposal)
 		}
 		if wire != nil && !in.shadow {
+			s.huntObserve(n, v)
+		}
+		if wire != nil && !in.shadow {
 			if s.batchOwn == nil {
 				s.batchOwn = map[int][]UVote{}
 			}
